@@ -15,6 +15,7 @@ import (
 	"sync"
 
 	"verif/mc/eng"
+	"verif/mc/props/c35/wire"
 )
 
 var fixture = []string{
@@ -105,5 +106,65 @@ func main() {
 		wg.Wait()
 		total += nsess * len(stmts)
 	}
+	wireClients(iters)
 	fmt.Printf("racepass: %d sessions x %d statements x %d rounds = %d executions, no race reported by the detector (%s)\n", nsess, len(stmts), iters, total, strings.Join([]string{"auxiliary pass"}, ""))
+}
+
+// wireClients: K real go-sql-driver clients on a unix-socket server, each repeatedly reading its own
+// tagged rows (results below one 128-row batch, the case where the handler's pooled conversion
+// buffer is still referenced when the statement returns) and comparing them with what it wrote.
+func wireClients(iters int) {
+	e := eng.New()
+	s0 := e.NewSession("root")
+	const k = 12
+	for c := 0; c < k; c++ {
+		s0.MustExec(fmt.Sprintf("create table w%d (id int primary key, tag varchar(40))", c))
+		var vals []string
+		for i := 0; i < 40; i++ {
+			vals = append(vals, fmt.Sprintf("(%d,'client-%d-row-%d')", i, c, i))
+		}
+		s0.MustExec(fmt.Sprintf("insert into w%d values %s", c, strings.Join(vals, ",")))
+	}
+	if os.Getenv("VERIF_SCRATCH") == "" {
+		d, _ := os.MkdirTemp(os.Getenv("VERIF_ROOT")+"/.build", "racepass-")
+		os.Setenv("VERIF_SCRATCH", d)
+		defer os.RemoveAll(d)
+	}
+	srv := wire.Start(e.E, e.Pro, wire.Options{Socket: true})
+	defer srv.Close()
+	var wg sync.WaitGroup
+	var mu sync.Mutex
+	bad := 0
+	for c := 0; c < k; c++ {
+		wg.Add(1)
+		go func(c int) {
+			defer wg.Done()
+			db := srv.DB("mydb", "")
+			defer db.Close()
+			for it := 0; it < iters*5; it++ {
+				rows, err := db.Query(fmt.Sprintf("select id, tag from w%d order by id", c))
+				if err != nil {
+					continue
+				}
+				n := 0
+				for rows.Next() {
+					var id int
+					var tag string
+					if rows.Scan(&id, &tag) == nil && tag != fmt.Sprintf("client-%d-row-%d", c, id) {
+						mu.Lock()
+						bad++
+						mu.Unlock()
+					}
+					n++
+				}
+				rows.Close()
+			}
+		}(c)
+	}
+	wg.Wait()
+	if bad > 0 {
+		fmt.Printf("racepass-wire: %d rows received by a client did not belong to it\n", bad)
+		os.Exit(67)
+	}
+	fmt.Printf("racepass-wire: %d clients x %d statements over a unix socket, all rows belonged to their client\n", k, iters*5)
 }
